@@ -93,6 +93,14 @@ def native_check(seed=0, trees=60, depth=6):
     n += 1
     if not torch.allclose(H.apply(st, smp), ref(st, smp), rtol=1e-10, atol=1e-12):
         fails.append((repr(H), "evaluation after the state's parameters changed is stale"))
+    # an observable that is already part of other expressions keeps its own value
+    Hs = SigmaZ() + NeighbourInteraction(c=1)
+    base = Hs.apply(st, smp).clone()
+    H2s, H3s = Hs + 3, Hs - SigmaX()
+    n += 1
+    if not torch.allclose(Hs.apply(st, smp), base, rtol=1e-10, atol=1e-12) or not torch.allclose(H2s.apply(st, smp), base + 3, rtol=1e-10, atol=1e-12) \
+            or not torch.allclose((2 * Hs - (Hs + SigmaZ())).apply(st, smp), 2 * base - (base + SigmaZ().apply(st, smp)), rtol=1e-10, atol=1e-12):
+        fails.append((repr(Hs), "an operand changed its value after composites were built from it (or a shared sub-expression is wrong)"))
     for bad in (lambda: SigmaX() * SigmaZ(), lambda: ProdObservable(2, 3)):
         try:
             bad()
